@@ -16,7 +16,16 @@ length classes, endless containers, wider ints, float32, wider pointers):
   tie     real unpack == Lean `unpack`;   oracle  real unpack(variant(x)) equals x
 Malformed streams (truncation, byte flips, insertions, random bytes):
   tie     real unpack ok/err(+class, value when ok) == Lean `unpack`
+Call histories (pack and unpack are functions of their argument: nothing may survive a call,
+whether it returned or raised): sequences of pack()/unpack() calls in ONE process that share
+objects, with failing calls interleaved (an unsupported type / unencodable int deep inside a
+value after several packable objects; a stream that turns invalid after several decoded objects):
+  oracle  every call that succeeds (in the history or in a fresh state) gives exactly what the
+          same call gives on a freshly loaded private copy of pyatv/support/opack.py
+  tie     real result of every modelable call == Lean `pack` / `unpack` (pure functions)
 """
+import datetime as datetime_mod
+import importlib.util
 import struct
 import uuid as uuid_mod
 
@@ -29,7 +38,9 @@ RULE = ("OPACK: structured values from ctx.rng (depth <=4 quick / <=6 thorough; 
         "scalars 1/True/1.0, 255/255.0) -> real pack/unpack vs Lean model, vs reference codec written from "
         "docs/documentation/protocols.md; plus reference-variant and malformed streams. non-trivial = the "
         "encoding contains a back-reference, an endless container or a multi-byte length class; distinct = "
-        "typed dump of the value / hex of the stream")
+        "typed dump of the value / hex of the stream; call histories of 3..8 pack/unpack calls over a shared "
+        "object pool with failing calls interleaved, each compared with the same call in a fresh module state "
+        "(non-trivial = a failing call is followed by a succeeding one)")
 ASSUMPTIONS = [
     "opack: CPython str.encode('utf-8')/bytes.decode('utf-8') are inverse on valid UTF-8; struct '<d' is the IEEE-754 bit pattern",
     "opack: dict keys that are NaN are excluded (a Python dict tells NaN keys apart by object identity, which the model does not carry)",
@@ -43,6 +54,14 @@ SIG_DOC_DATA = "opack:doc-data-length-width"
 
 # --------------------------------------------------------------------------------------
 # typed canonical dump (same syntax as the Lean driver)
+
+# leaves pack() does not support (it raises); only used inside call histories
+BAD_MAKE = {
+    "obj": object, "dt": lambda: datetime_mod.datetime(2020, 1, 2, 3, 4, 5), "set": lambda: {1, 2},
+    "tup": lambda: ("a", "b"), "barr": lambda: bytearray(b"ab"), "cplx": lambda: 1j,
+}
+BAD_KIND = {object: "obj", datetime_mod.datetime: "dt", set: "set", tuple: "tup", bytearray: "barr", complex: "cplx"}
+
 
 def _float_bits(f):
     return struct.unpack("<Q", struct.pack("<d", f))[0]
@@ -74,6 +93,8 @@ def dump_tokens(v, sizes, out, nan_bits=False):
         for k, x in v.items():
             dump_tokens(k, sizes, out, nan_bits)
             dump_tokens(x, sizes, out, nan_bits)
+    elif t in BAD_KIND:
+        out.append("X" + BAD_KIND[t])
     else:
         out.append("?" + t.__name__)
     return out
@@ -571,6 +592,180 @@ def mutate(rng, data):
     return rng.bytes_(rng.randrange(0, 12)), "random"
 
 
+
+# --------------------------------------------------------------------------------------
+# call histories: nothing may survive a call of pack()/unpack()
+
+_FRESH_N = [0]
+
+
+def fresh_copy(opack):
+    """a private, freshly executed copy of the module under test (fresh module-level state)"""
+    _FRESH_N[0] += 1
+    spec = importlib.util.spec_from_file_location("_verif_fresh_opack_%d" % _FRESH_N[0], opack.__file__)
+    mod = importlib.util.module_from_spec(spec)
+    spec.loader.exec_module(mod)
+    return mod
+
+
+def history_call(mod, op, opack):
+    """one call -> canonical result string ('ok …' | 'err' | 'err:<class>')"""
+    kind, arg = op
+    if kind == "pack":
+        res = real_pack(mod, parse_dump(arg, opack))
+        return "err" if isinstance(res, Exception) else "ok " + hx(res)
+    return show_unpack(real_unpack(mod, bytes.fromhex(arg) if arg != "-" else b""))
+
+
+def history_run(opack, ops):
+    """(results of the calls made in sequence in ONE module state, results of each call alone in a
+    fresh state).  Both run the source file under test; the sequence gets its own freshly executed
+    copy too, so that a history is self-contained (replayable, shrinkable) whatever ran before."""
+    one_state = fresh_copy(opack)
+    seq = [history_call(one_state, op, opack) for op in ops]
+    alone = [history_call(fresh_copy(opack), op, opack) for op in ops]
+    return seq, alone
+
+
+def history_bad(seq, alone):
+    """indices of calls whose outcome depends on the earlier calls"""
+    return [i for i, (a, b) in enumerate(zip(seq, alone)) if a != b and (a.startswith("ok") or b.startswith("ok"))]
+
+
+class HistoryGen:
+    KEYS = ["_i", "_t", "_c", "_x", "_systemInfo", "_pd", "name", "model", "é", "日本"]
+
+    def __init__(self, rng, opack):
+        self.r = rng
+        self.opack = opack
+
+    def pool(self):
+        r = self.r
+        out = [r.choice(self.KEYS) for _ in range(r.randrange(2, 5))]
+        for _ in range(r.randrange(2, 6)):
+            k = r.randrange(6)
+            if k == 0:
+                out.append(r.choice([0x28, 0xFF, 0x100, 0x10000, 1254122577, 2 ** 64 - 1]))
+            elif k == 1:
+                out.append(r.choice([1.0, 255.0, 0.5, -0.0, 1e300]))
+            elif k == 2:
+                out.append(r.bytes_(r.choice([1, 2, 6, 0x20, 0x21])))
+            elif k == 3:
+                out.append(uuid_mod.UUID(bytes=r.bytes_(16)))
+            elif k == 4:
+                out.append(self.opack._sized_int(r.randrange(0, 200), r.choice([1, 2, 4, 8])))
+            else:
+                out.append("".join(r.choice("abcxyzé") for _ in range(r.randrange(2, 12))))
+        return out
+
+    def leaf(self, pool):
+        r = self.r
+        return r.choice(pool) if r.chance(0.8) else r.choice([None, True, False, 0, 7, "", b"", -1])
+
+    def good(self, pool, depth=0):
+        r = self.r
+        n = r.choice([1, 2, 3, 3, 4, 5, 15]) if depth == 0 else r.randrange(0, 4)
+        if r.chance(0.5):
+            out = []
+            for _ in range(n):
+                out.append(self.good(pool, depth + 1) if depth < 2 and r.chance(0.2) else self.leaf(pool))
+            return out
+        out = {}
+        for _ in range(n):
+            k = self.leaf(pool)
+            if k in out:
+                continue
+            out[k] = self.good(pool, depth + 1) if depth < 2 and r.chance(0.25) else self.leaf(pool)
+        return out
+
+    def bad(self, pool):
+        """a value pack() raises on only AFTER it packed several multi-byte objects"""
+        r = self.r
+        kind = r.randrange(8)
+        leaf = BAD_MAKE[r.choice(sorted(BAD_MAKE))]() if kind < 6 else (-9 if kind == 6 else 2 ** 64)
+        if r.chance(0.4):
+            leaf = [leaf] if r.chance(0.5) else {r.choice(pool[:2]): leaf}
+        front = [r.choice(pool) for _ in range(r.randrange(1, 5))]
+        if r.chance(0.5):
+            return front + [leaf] + ([r.choice(pool)] if r.chance(0.3) else [])
+        out = {}
+        for i, v in enumerate(front):
+            out[pool[i % len(pool)] if r.chance(0.7) else "k%d" % i] = v
+        out["zz-last"] = leaf
+        return out
+
+    def bad_stream(self, pool):
+        """a stream unpack() raises on only AFTER it decoded several multi-byte objects"""
+        r = self.r
+        table = []
+        items = [ref_pack(r.choice(pool), table) for _ in range(r.randrange(1, 6))]
+        tail = r.choice([b"\x00", b"\xc0", b"\xc1\xff", b"", b"\x6f", b"\x05\x01"])
+        count = len(items) + 1
+        head = bytes([0xD0 + count]) if count <= 14 and r.chance(0.7) else b"\xdf"
+        return head + b"".join(items) + tail
+
+    def history(self):
+        r = self.r
+        pool = self.pool()
+        ops = []
+        for _ in range(r.randrange(3, 9)):
+            k = r.random()
+            try:
+                if k < 0.4:
+                    ops.append(("pack", dump(self.good(pool), nan_bits=True)))
+                elif k < 0.65:
+                    ops.append(("pack", dump(self.bad(pool), nan_bits=True)))
+                elif k < 0.85:
+                    ops.append(("unpack", hx(ref_pack(self.good(pool)))))
+                else:
+                    ops.append(("unpack", hx(self.bad_stream(pool))))
+            except RefError:
+                continue
+        return ops
+
+
+def run_histories(ctx, opack, rng, ask):
+    hg = HistoryGen(rng, opack)
+    corpus = [
+        [("pack", "D3,s5f69,s5f73797374656d496e666f,s5f74,i2:0,s5f78,Xdt"),
+         ("pack", "D3,s5f69,s5f73797374656d496e666f,s5f74,i2:0,s5f78,i17:0")],
+        [("unpack", "d3426161426262" + "00"), ("unpack", "d3426363426161a1")],
+        [("pack", "L3,s6161,s6262,Xobj"), ("unpack", "d3426363426161a1"), ("pack", "L2,s6262,s6161")],
+    ]
+    histories = corpus + [hg.history() for _ in range(ctx.scale(150, 1500))]
+    for ops in histories:
+        if not ops:
+            continue
+        ops = [list(op) for op in ops]
+        seq, alone = history_run(opack, ops)
+        fails = [i for i, a in enumerate(seq) if not a.startswith("ok")]
+        oks = [i for i, a in enumerate(seq) if a.startswith("ok")]
+        nontrivial = bool(fails) and bool(oks) and min(fails) < max(oks)
+        ctx.case(["history", ops], nontrivial,
+                 sample={"history": [[k, a[:120]] for k, a in ops], "results": [x[:80] for x in seq]})
+        ctx.note("history:calls", len(ops))
+        ctx.note("history:failing-calls", len(fails))
+        if nontrivial:
+            ctx.note("history:ok-after-failure")
+        case = {"history": ops}
+        for i in history_bad(seq, alone):
+            kind = ops[i][0]
+            prior = "after-failed-call" if any(j < i for j in fails) else "after-successful-calls"
+            ctx.fail("opack:history:%s-depends-on-earlier-calls:%s" % (kind, prior), dict(case, call=i),
+                     seq[i][:300], alone[i][:300],
+                     "%s() call #%d of the history does not give what the same call gives in a fresh state "
+                     "(something survived an earlier call)" % (kind, i))
+        for i, (kind, arg) in enumerate(ops):
+            if kind == "pack" and ",X" in "," + arg:
+                continue                      # unsupported Python types have no model value
+
+            def on_hist(ans, case=dict(case, call=i), want=seq[i]):
+                ctx.validated()
+                if ans != want:
+                    ctx.disagree(case, want[:300], ans[:300], "opack call inside a history vs the (pure) model")
+            ask("%s %s" % (kind, arg), on_hist)
+
+
 def run(ctx):
     from pyatv.support import opack
 
@@ -736,6 +931,9 @@ def run(ctx):
                 ctx.disagree(case, show_unpack(res)[:300], ans[:300], "opack unpack of malformed stream")
         ask("unpack " + hx(stream), on_mal)
 
+    # ---- call histories -------------------------------------------------------------------
+    run_histories(ctx, opack, rng.fork("histories"), ask)
+
     # ---- pointer index classes with a prepared object list ------------------------------
     top = 0x10002
     enc_table = [b"\x33" + i.to_bytes(8, "little") for i in range(top)]
@@ -790,6 +988,9 @@ def replay(ctx, failure):
 
     case = failure.get("case", {})
     sig = failure.get("sig", "")
+    if "history" in case:
+        seq, alone = history_run(opack, case["history"])
+        return bool(history_bad(seq, alone))
     if "pointer_index" in case:
         idx = case["pointer_index"]
         obj = "obj-%d" % idx
@@ -851,6 +1052,8 @@ def parse_dump(text, opack):
             return bytes.fromhex(body)
         if k == "u":
             return uuid_mod.UUID(bytes=bytes.fromhex(body))
+        if k == "X":
+            return BAD_MAKE[body]()
         if k == "L":
             return [one() for _ in range(int(body))]
         if k == "D":
@@ -898,6 +1101,8 @@ def shrink(ctx, failure):
     from pyatv.support import opack
 
     case = failure.get("case", {})
+    if "history" in case:
+        return shrink_history(ctx, failure, opack)
     if "value" not in case:
         return failure
     x = parse_dump(case["value"], opack)
@@ -919,3 +1124,47 @@ def shrink(ctx, failure):
                 progress = True
                 break
     return failure
+
+
+def shrink_history(ctx, failure, opack):
+    """drop calls, then simplify the packed values, while some call still depends on the past"""
+    ops = [list(op) for op in failure["case"]["history"]]
+
+    def fails(cand):
+        try:
+            seq, alone = history_run(opack, cand)
+            return bool(history_bad(seq, alone))
+        except Exception:
+            return False
+
+    budget = 200
+    progress = True
+    while progress and budget > 0:
+        progress = False
+        for i in range(len(ops)):
+            budget -= 1
+            cand = ops[:i] + ops[i + 1:]
+            if cand and fails(cand):
+                ops, progress = cand, True
+                break
+        if progress:
+            continue
+        for i, (kind, arg) in enumerate(ops):
+            if kind != "pack":
+                continue
+            for y in _smaller(parse_dump(arg, opack)):
+                budget -= 1
+                if budget <= 0:
+                    break
+                cand = ops[:i] + [["pack", dump(y, nan_bits=True)]] + ops[i + 1:]
+                if fails(cand):
+                    ops, progress = cand, True
+                    break
+            if progress or budget <= 0:
+                break
+    seq, alone = history_run(opack, ops)
+    bad = history_bad(seq, alone)
+    out = dict(failure, case={"history": ops, "call": bad[0] if bad else None})
+    if bad:
+        out["observed"], out["required"] = seq[bad[0]][:300], alone[bad[0]][:300]
+    return out
